@@ -350,8 +350,20 @@ def prove_takes_slot(src_root, ex: Explorer):
     ex.run(path, 'takes-slot')
 
 
+def prove_slot_released(src_root, ex: Explorer):
+    """A started transfer is skipped by the next selections through its task handle; the handle has to be cleared when the task ends,
+    otherwise an upload that went back to QUEUED is never started again.  manage_transfers must register the done-callback that clears
+    exactly the slot it filled (C06.assigns / C06.callbacks); discharged here too because the selection contract depends on it."""
+    from contracts import C06
+    C06.prove_manage_assigns(src_root, ex)
+    C06.prove_done_callbacks(src_root, ex)
+    for ob in ex.obligations:
+        if ob.name.startswith('C06.'):
+            ob.name = 'C05.slot-released.' + ob.name[4:]
+
+
 def items(src_root, tier):
-    return [('step', None), ('rank', None), ('slots', None), ('takes-slot', None)] + [('bounded', ('selection', n)) for n in (1, 2)] + [('bounded', ('manage', n)) for n in (1, 2)]
+    return [('step', None), ('rank', None), ('slots', None), ('takes-slot', None), ('slot-released', None)] + [('bounded', ('selection', n)) for n in (1, 2)] + [('bounded', ('manage', n)) for n in (1, 2)]
 
 
 def run_item(src_root, item, tier):
@@ -367,6 +379,8 @@ def run_item(src_root, item, tier):
             prove_free_slots(src_root, ex)
         elif kind == 'takes-slot':
             prove_takes_slot(src_root, ex)
+        elif kind == 'slot-released':
+            prove_slot_released(src_root, ex)
         elif kind == 'bounded':
             prove_bounded(src_root, ex, res, arg[0], arg[1])
     except Unsupported as e:
